@@ -496,7 +496,7 @@ class QueryMixin:
                             if e.table is None and s.using and c in s.using:
                                 continue
                             a = s.alias
-                            out.append(((lambda X, a=a, c=c: (X.scope.rows.get(a) or _NULLROW)[c]), self._decl_name(s, c), a, None))
+                            out.append(((lambda X, a=a, c=c: (X.scope.rows.get(a) or _NULLROW)[c]), self._decl_name(s, c), a, None, c))
                 if not found:
                     raise SchemaError(f"Unknown table '{e.table}' in {e.table}.*")
                 continue
@@ -516,7 +516,8 @@ class QueryMixin:
                 name = text
             if alias is not None:
                 name = alias
-            out.append((f, name, tbl, alias.lower() if alias is not None else None))
+            out.append((f, name, tbl, alias.lower() if alias is not None else None,
+                        e.parts[-1] if (alias is None and isinstance(e, A.Name)) else None))
         return out
 
     @staticmethod
@@ -527,22 +528,53 @@ class QueryMixin:
                 return cd.name
         return c
 
+    def check_names(self, nodes, X, sc: Scope, aliases=()):
+        """MySQL resolves every column reference when it prepares a statement; do the same so that an unknown column is
+        reported even when no row is evaluated"""
+        names: List[Any] = []
+        names_in(nodes, names)
+        fr = X.frame
+        for nm in names:
+            parts = nm.parts
+            s = sc
+            if len(parts) == 1:
+                n1 = parts[0]
+                if (fr is not None and fr.lookup(n1) is not None) or n1 in aliases:
+                    continue
+                while s is not None and n1 not in s.colmap:
+                    s = s.parent
+                if s is None:
+                    raise SchemaError(f"Unknown column '{n1}' (1054)")
+            else:
+                tb, c = parts
+                while s is not None and tb not in s.cols:
+                    s = s.parent
+                if s is None:
+                    if fr is not None and tb in ('new', 'old') and fr.pseudo(tb) is not None:
+                        if c not in fr.pseudo(tb):
+                            raise SchemaError(f"Unknown column '{tb}.{c}' (1054)")
+                        continue
+                    raise SchemaError(f"Unknown table '{tb}' in field list ({tb}.{c}) (1054)")
+                if c not in s.cols[tb]:
+                    raise SchemaError(f"Unknown column '{tb}.{c}' (1054)")
+
     def _exec_select_in(self, sel, X, sc: Scope, srcs, sink) -> Result:
+        if getattr(sel, '_plan', None) is None:
+            al = {a.lower() for _, a, _ in sel.items if a is not None}
+            self.check_names([[e for e, _, _ in sel.items if not isinstance(e, A.Star)], sel.where,
+                              [s.on_node for s in srcs if s.on_node is not None]], X, sc)
+            self.check_names([sel.group_by, sel.having, [e for e, _ in (sel.order_by or [])]], X, sc, al)
+            sel._plan = True
         items = self._expand_items(sel, sc, srcs)
-        columns = [(name, tbl) for _, name, tbl, _ in items]
-        fns = [f for f, _, _, _ in items]
-        alias_keys = [(i, k) for i, (_, _, _, k) in enumerate(items) if k is not None]
+        columns = [(name, tbl) for _, name, tbl, _, _ in items]
+        fns = [f for f, _, _, _, _ in items]
+        alias_keys = [(i, k) for i, (_, _, _, k, _) in enumerate(items) if k is not None]
         _seen = {k for _, k in alias_keys}
-        # non-aliased plain columns are addressable by their name too (after real aliases)
-        pos = 0
-        for e, alias, _ in sel.items:
-            if isinstance(e, A.Star):
-                pos = None
-                break
-            if alias is None and isinstance(e, A.Name) and e.parts[-1] not in _seen:
-                _seen.add(e.parts[-1])
-                alias_keys.append((pos, e.parts[-1]))
-            pos += 1
+        # non-aliased plain columns (also those expanded from *) are addressable by their name too, after real aliases
+        for i, (_, _, _, _, cn) in enumerate(items):
+            if cn is not None and cn not in _seen:
+                _seen.add(cn)
+                alias_keys.append((i, cn))
         grouped = bool(sel.group_by) or any(has_aggregate(e) for e, _, _ in sel.items) or has_aggregate(sel.having) \
             or has_aggregate([e for e, _ in (sel.order_by or [])])
         windows: List[Any] = []
